@@ -114,6 +114,29 @@ Proof.
 Qed.
 Print Assumptions spec_unchanged.
 
+(* merge precedence of build_spec, for any number of base specs: a key has the entry of the FIRST spec in
+   [section; base1; base2; ...] that declares it (own declarations first, bases only fill in), and the merged
+   spec has no duplicate keys.  With validate_config_complete: every key is validated against, and every default
+   filled in from, the section's own declaration. *)
+Theorem build_spec_own_first :
+  forall k specs,
+    Forall (fun s => NoDup (map fst s)) specs ->
+    spec_get k (build_spec specs) = first_decl k specs /\ NoDup (map fst (build_spec specs)).
+Proof. intros k specs H. split; [apply build_spec_own_first_l|apply build_spec_nodup_l]; exact H. Qed.
+Print Assumptions build_spec_own_first.
+
+(* the same over ANY history of validations against one validator object (any number of steps, any sections and
+   base specs, cache hits and misses interleaved): the specs are never changed, and the i-th answer is exactly
+   the validation of the i-th source against a fresh merge (own declarations first) of the ORIGINAL specs *)
+Theorem spec_unchanged_history :
+  forall m allow_invalid steps st,
+    cache_ok st ->
+    st_specs (fst (run_steps m allow_invalid st steps)) = st_specs st /\
+    cache_ok (fst (run_steps m allow_invalid st steps)) /\
+    snd (run_steps m allow_invalid st steps) = map (fresh_validate m allow_invalid st) steps.
+Proof. exact history_l. Qed.
+Print Assumptions spec_unchanged_history.
+
 (* IEEE-754 binary64 round-to-nearest as modelled has relative error at most 2^-53 *)
 Theorem rnd53_relative_error : forall q, (Qabs.Qabs (rnd53 q - q) <= Qabs.Qabs q * U)%Q.
 Proof. exact rnd53_err. Qed.
